@@ -210,6 +210,47 @@ def run_case(case, ctx):
     if neardef:
         Mq[..., :, -1] = Mq[..., :, 0] * (1 + 1e-9)
         shape_kind += ":nearly_rank_deficient"
+    exact_sing = (not neardef) and rng.random() < 0.15
+    if exact_sing:
+        # EXACT rank deficiency (a zero column / row, the zero matrix, a repeated integer column): R gets an exactly zero diagonal entry,
+        # which the stabilisation must replace by +-1e-6 (sign(0) := +1) so that R stays invertible and the pseudo-inverse finite
+        how = rng.choice(["zero_col", "zero_matrix", "repeated_int"])
+        Mq = Mq.clone()
+        if how == "zero_matrix":
+            Mq.zero_()
+        elif how == "zero_col":
+            if rr >= cc:
+                Mq[..., :, rng.randrange(cc)] = 0
+            else:
+                Mq[..., rng.randrange(rr), :] = 0
+        else:
+            Mq = torch.round(Mq * 3)
+            if cc >= 2 and rr >= cc:
+                Mq[..., :, -1] = Mq[..., :, 0]
+            elif rr >= 2:
+                Mq[..., -1, :] = Mq[..., 0, :]
+        shape_kind += ":exactly_singular"
+        if rr >= cc:
+            qr, exq = compare.attempt(lambda: stable_qr(Mq))
+            if exq is not None:
+                ctx.fail("stable_qr", "exception", cls="stable_qr", path=shape_kind, exc=exq, info={dn})
+            else:
+                Q, Rm = qr
+                dmin = float(Rm.diagonal(dim1=-2, dim2=-1).abs().min())
+                if not (torch.isfinite(Q).all() and torch.isfinite(Rm).all()) or dmin < 0.9e-6:
+                    ctx.fail("stable_qr", "value", cls="stable_qr", path=shape_kind, info={dn, how}, err=dmin,
+                             detail=f"R is singular / non-finite after stabilisation (min |R_ii| = {dmin:.1e}; jitter 1e-6 expected on zero entries)")
+                else:
+                    ctx.ok("stable_qr", "stabilised_diagonal:" + shape_kind + ":" + dn, True)
+                    chk("stable_qr", lambda: Q @ Rm, lambda: Mq, "QR=A:" + shape_kind, tol_=1e-4)
+        pin, exq = compare.attempt(lambda: stable_pinverse(Mq))
+        if exq is not None:
+            ctx.fail("stable_pinverse", "exception", cls="stable_pinverse", path=shape_kind, exc=exq, info={dn})
+        elif not torch.isfinite(pin).all():
+            ctx.fail("stable_pinverse", "value", cls="stable_pinverse", path=shape_kind, info={dn, how}, detail="non-finite pseudo-inverse of an exactly rank-deficient matrix")
+        else:
+            ctx.ok("stable_pinverse", "finite:" + shape_kind + ":" + dn, True)
+        return
     if rr >= cc:
         qr, exq = compare.attempt(lambda: stable_qr(Mq))
         if exq is not None:
